@@ -23,6 +23,8 @@ Inductive Inv1 : list tn -> list tn -> Prop :=
 | I_nil : Inv1 [] []
 | I_prim p i : prim_inv p = Some i -> Inv1 [TP p] i
 | I_lit c p i : lit_inv c p = Some i -> Inv1 [TPush c; TP p] i
+| I_rsub c : Inv1 [TPush c; TP P_Flip; TP P_Sub] [TPush c; TP P_Flip; TP P_Sub]
+| I_dipn k f g : Inv1 f g -> Inv1 [TDipN k f] [TDipN k g]
 | I_seq f g f' g' : Inv1 f g -> Inv1 f' g' -> Inv1 (f ++ f') (g' ++ g)
 | I_dip f g : Inv1 f g -> Inv1 [TDip f] [TDip g]
 | I_both a o f g : Inv1 f g -> Inv1 [TBoth a o f] [TUnBoth o a g]
@@ -33,16 +35,28 @@ Inductive Inv1 : list tn -> list tn -> Prop :=
     Inv1 [TUnBracket a o f a' o' f'] [TBracket o a g o' a' g'].
 Definition Inv (f g : list tn) : Prop := Inv1 f g /\ Inv1 g f.
 
+Lemma rsub_tail_some l r : rsub_tail l = Some r -> l = TP P_Flip :: TP P_Sub :: r.
+Proof.
+  destruct l as [|x l]; [discriminate|]. destruct x; try discriminate. destruct p; try discriminate.
+  destruct l as [|y l]; [discriminate|]. destruct y; try discriminate. destruct p; try discriminate.
+  cbn. intros H; inversion H; reflexivity.
+Qed.
+
 Lemma cinv_sound : forall fuel f g, cinv true fuel f = Some g -> Inv1 f g.
 Proof.
   induction fuel as [|fuel IH]; intros f g H; [discriminate|].
   destruct f as [|x rest]; cbn [cinv] in H.
   - inversion H; constructor.
   - destruct x; try discriminate.
-    + (* TPush *) destruct rest as [|y rest]; [discriminate|]. destruct y; try discriminate.
-      destruct (lit_inv z p) as [i|] eqn:Ei; [|discriminate]. cbn [obind] in H.
-      destruct (cinv true fuel rest) as [r|] eqn:Er; [|discriminate]. cbn [obind] in H. inversion H; subst.
-      change (TPush z :: TP p :: rest) with ([TPush z; TP p] ++ rest). apply I_seq; auto using I_lit.
+    + (* TPush *) destruct (rsub_tail rest) as [rest'|] eqn:Ers.
+      * apply rsub_tail_some in Ers. subst rest.
+        destruct (cinv true fuel rest') as [r|] eqn:Er; [|discriminate]. cbn [obind] in H. inversion H; subst.
+        change (TPush z :: TP P_Flip :: TP P_Sub :: rest') with ([TPush z; TP P_Flip; TP P_Sub] ++ rest').
+        apply I_seq; auto using I_rsub.
+      * destruct rest as [|y rest]; [discriminate|]. destruct y; try discriminate.
+        destruct (lit_inv z p) as [i|] eqn:Ei; [|discriminate]. cbn [obind] in H.
+        destruct (cinv true fuel rest) as [r|] eqn:Er; [|discriminate]. cbn [obind] in H. inversion H; subst.
+        change (TPush z :: TP p :: rest) with ([TPush z; TP p] ++ rest). apply I_seq; auto using I_lit.
     + (* TP *) destruct (prim_inv p) as [i|] eqn:Ei; [|discriminate]. cbn [obind] in H.
       destruct (cinv true fuel rest) as [r|] eqn:Er; [|discriminate]. cbn [obind] in H. inversion H; subst.
       change (TP p :: rest) with ([TP p] ++ rest). apply I_seq; auto using I_prim.
@@ -53,6 +67,9 @@ Proof.
       destruct (cinv true fuel f) as [gi|] eqn:Eg; [|discriminate]. cbn [obind] in H.
       destruct (cinv true fuel rest) as [r|] eqn:Er; [|discriminate]. cbn [obind] in H. inversion H; subst.
       change (TDip f :: rest) with ([TDip f] ++ rest). apply I_seq; auto using I_dip.
+    + (* TDipN *) destruct (cinv true fuel f) as [gi|] eqn:Eg; [|discriminate]. cbn [obind] in H.
+      destruct (cinv true fuel rest) as [r|] eqn:Er; [|discriminate]. cbn [obind] in H. inversion H; subst.
+      change (TDipN k f :: rest) with ([TDipN k f] ++ rest). apply I_seq; auto using I_dipn.
     + (* TBoth *) destruct (cinv true fuel f) as [gi|] eqn:Eg; [|discriminate]. cbn [obind] in H.
       destruct (cinv true fuel rest) as [r|] eqn:Er; [|discriminate]. cbn [obind] in H. inversion H; subst.
       change (TBoth a o f :: rest) with ([TBoth a o f] ++ rest). apply I_seq; auto using I_both.
@@ -354,25 +371,113 @@ Proof.
   cbn [tstep bind]. apply (tp_of p (num c :: fst s, snd s)). exact H.
 Qed.
 
+(** x × c ÷ c = x and x ÷ c × c = x on whole numbers *)
+Lemma mul_div_scalar c x v : c <> 0%Z -> arr_okb x = true -> scalar_mul c x = Ok v -> scalar_div c v = Ok x.
+Proof.
+  intros Hc Hx H. destruct x as [t sh d]. unfold scalar_mul, scalar_div in *. cbn [aty ash adata] in *.
+  destruct t; try discriminate. apply bind_ok in H as (d' & Hd & H). inversion H; subst; clear H. cbn [aty ash adata].
+  destruct (Z.eqb_spec c 0); [contradiction|].
+  unfold arr_okb in Hx. apply andb_prop in Hx as [_ Hx]. cbn [adata] in Hx.
+  assert (M : mapM (fun e => match e with ENum z => if Z.eqb (z mod c) 0 then Ok (ENum (z / c)) else Unspec | _ => Unspec end) d' = Ok d).
+  { eapply (mapM_ok_inv_on elem_okb); [|exact Hx|exact Hd].
+    intros e e' He Hee. destruct e as [z| |]; try discriminate. unfold znum in Hee.
+    destruct (Z.abs (z * c) <? big)%Z; inversion Hee; subst.
+    rewrite Z_mod_mult. cbn. rewrite Z.div_mul by auto. reflexivity. }
+  rewrite M. reflexivity.
+Qed.
+Lemma div_mul_scalar c x v : arr_okb x = true -> scalar_div c x = Ok v -> scalar_mul c v = Ok x.
+Proof.
+  intros Hx H. destruct x as [t sh d]. unfold scalar_mul, scalar_div in *. cbn [aty ash adata] in *.
+  destruct (Z.eqb_spec c 0); [discriminate|].
+  destruct t; try discriminate. apply bind_ok in H as (d' & Hd & H). inversion H; subst; clear H. cbn [aty ash adata].
+  unfold arr_okb in Hx. apply andb_prop in Hx as [_ Hx]. cbn [adata] in Hx.
+  assert (M : mapM (fun e => match e with ENum z => znum (z * c) | _ => Unspec end) d' = Ok d).
+  { eapply (mapM_ok_inv_on elem_okb); [|exact Hx|exact Hd].
+    intros e e' He Hee. destruct e as [z| |]; try discriminate.
+    destruct (Z.eqb_spec (z mod c) 0); inversion Hee; subst.
+    replace (z / c * c)%Z with z by (rewrite Z.mul_comm; apply Z_div_exact_full_2; auto).
+    unfold znum. cbn in He. rewrite He. reflexivity. }
+  rewrite M. reflexivity.
+Qed.
+Lemma scalar_div_nz c x v : scalar_div c x = Ok v -> c <> 0%Z.
+Proof. unfold scalar_div. destruct (Z.eqb_spec c 0); [discriminate|auto]. Qed.
+
+(** c - (c - x) = x: the flipped subtraction is its own inverse *)
+Lemma perv2_scalar_r o c x : wf x -> p_perv2 o None x (num c) =
+  (t <- pty2 o (aty x) TNum ;; d <- mapM (fun e => pel2 o e (ENum c)) (adata x) ;; Ok (Arr t (ash x) d)).
+Proof.
+  destruct x as [t sh d]. unfold wf, p_perv2, num; cbn [aty ash adata]. intros Hw.
+  destruct (pty2 o t TNum); cbn [bind]; auto. destruct sh as [|n s]; cbn.
+  - destruct d as [|e [|? ?]]; try discriminate. cbn. destruct (pel2 o e (ENum c)); reflexivity.
+  - reflexivity.
+Qed.
+Lemma rsub_involutive c x v : arr_okb x = true -> p_perv2 PSub None x (num c) = Ok v -> p_perv2 PSub None v (num c) = Ok x /\ wf v.
+Proof.
+  intros Hx H. pose proof (arr_okb_wf _ Hx) as Hw. rewrite perv2_scalar_r in H by auto.
+  destruct x as [t sh d]. cbn [aty ash adata] in *.
+  apply bind_ok in H as (t' & Ht & H). apply bind_ok in H as (d' & Hd & H). inversion H; subst; clear H.
+  assert (Tn : t = TNum /\ t' = TNum) by (destruct t; cbn in Ht; inversion Ht; auto). destruct Tn; subst.
+  unfold arr_okb in Hx. apply andb_prop in Hx as [_ Hx]. cbn [adata] in Hx.
+  assert (M : mapM (fun e => pel2 PSub e (ENum c)) d' = Ok d).
+  { eapply (mapM_ok_inv_on elem_okb); [|exact Hx|exact Hd].
+    intros e e' He Hee. destruct e as [z| |]; try discriminate. cbn in Hee. unfold znum in Hee.
+    destruct (Z.abs (c - z) <? big)%Z; inversion Hee; subst. cbn. unfold znum.
+    replace (c - (c - z))%Z with z by lia. cbn in He. rewrite He. reflexivity. }
+  assert (Wv : wf (Arr TNum sh d')).
+  { unfold wf in *; cbn [ash adata] in *. rewrite <- Hw. clear - Hd. revert d' Hd.
+    induction d as [|e d IH]; intros d' Hd; cbn in Hd.
+    - inversion Hd; reflexivity.
+    - apply bind_ok in Hd as (y & _ & Hd). apply bind_ok in Hd as (r & Hr & Hd). inversion Hd; subst. cbn. f_equal. auto. }
+  split; auto. rewrite perv2_scalar_r by auto. cbn [aty ash adata bind pty2]. rewrite M. reflexivity.
+Qed.
+
 Lemma law_lit c p i : lit_inv c p = Some i -> law [TPush c; TP p] i.
 Proof.
   intros Hp [stk u] s' Hs H. apply push_tp in H as (stk' & E & ->). cbn [fst snd] in *.
-  destruct p; cbn [lit_inv] in Hp; inversion Hp; subst; clear Hp; cbn [prim_sem] in E;
+  destruct p; cbn [lit_inv] in Hp; try discriminate; cbn [prim_sem] in E;
     destruct stk as [|x r]; try discriminate; apply st_okb_cons in Hs as [A Hs].
-  - (* Add *) apply bind_ok in E as (v & Ev & E). apply ck_ok in E as [-> Kv]. split; [|apply st_okb_cons; auto].
+  - (* Add *) inversion Hp; subst; clear Hp.
+    apply bind_ok in E as (v & Ev & E). apply ck_ok in E as [-> Kv]. split; [|apply st_okb_cons; auto].
     apply push_tp_of. cbn [prim_sem fst].
     rewrite (add_sub_scalar PAdd PSub c x v) by auto. cbn [bind]. apply ck_of; auto.
-  - (* Sub *) apply bind_ok in E as (v & Ev & E). apply ck_ok in E as [-> Kv]. split; [|apply st_okb_cons; auto].
+  - (* Sub *) inversion Hp; subst; clear Hp.
+    apply bind_ok in E as (v & Ev & E). apply ck_ok in E as [-> Kv]. split; [|apply st_okb_cons; auto].
     apply push_tp_of. cbn [prim_sem fst].
     rewrite (add_sub_scalar PSub PAdd c x v) by auto. cbn [bind]. apply ck_of; auto.
-  - (* Rotate *) cbn [num ash adata] in E. apply bind_ok in E as (v & Ev & E). apply ck_ok in E as [-> Kv]. split; [|apply st_okb_cons; auto].
+  - (* Mul *) destruct (Z.eqb_spec c 0); [discriminate|]. inversion Hp; subst; clear Hp.
+    cbn [num ash adata] in E. apply bind_ok in E as (v & Ev & E). apply ck_ok in E as [-> Kv]. split; [|apply st_okb_cons; auto].
+    apply push_tp_of. cbn [prim_sem fst num ash adata].
+    rewrite (mul_div_scalar c x v) by auto. cbn [bind]. apply ck_of; auto.
+  - (* Div *) destruct (Z.eqb_spec c 0); [discriminate|]. inversion Hp; subst; clear Hp.
+    cbn [num ash adata] in E. apply bind_ok in E as (v & Ev & E). apply ck_ok in E as [-> Kv]. split; [|apply st_okb_cons; auto].
+    apply push_tp_of. cbn [prim_sem fst num ash adata].
+    rewrite (div_mul_scalar c x v) by auto. cbn [bind]. apply ck_of; auto.
+  - (* Rotate *) inversion Hp; subst; clear Hp.
+    cbn [num ash adata] in E. apply bind_ok in E as (v & Ev & E). apply ck_ok in E as [-> Kv]. split; [|apply st_okb_cons; auto].
     apply push_tp_of. cbn [prim_sem fst num ash adata].
     rewrite (rot_by_inv c x v) by (auto using arr_okb_wf). cbn [bind]. apply ck_of; auto.
-  - (* AntiRotate *) cbn [num ash adata] in E. apply bind_ok in E as (v & Ev & E). apply ck_ok in E as [-> Kv]. split; [|apply st_okb_cons; auto].
+  - (* AntiRotate *) inversion Hp; subst; clear Hp.
+    cbn [num ash adata] in E. apply bind_ok in E as (v & Ev & E). apply ck_ok in E as [-> Kv]. split; [|apply st_okb_cons; auto].
     apply push_tp_of. cbn [prim_sem fst num ash adata].
     pose proof (rot_by_inv (- c) x v (arr_okb_wf _ A) Ev) as R. rewrite Z.opp_involutive in R. rewrite R.
     cbn [bind]. apply ck_of; auto.
 Qed.
+
+Lemma law_rsub c : law [TPush c; TP P_Flip; TP P_Sub] [TPush c; TP P_Flip; TP P_Sub].
+Proof.
+  assert (R : forall x r u v, arr_okb x = true -> p_perv2 PSub None x (num c) = Ok v -> arr_okb v = true ->
+              trun [TPush c; TP P_Flip; TP P_Sub] (x :: r, u) = Ok (v :: r, u)).
+  { intros x r u v Kx Ev Kv. cbn [trun tstep bind fst snd prim_sem]. rewrite Ev. cbn [bind]. rewrite (ck_of v r Kv). reflexivity. }
+  intros [stk u] s' Hs H. destruct stk as [|x r]; [cbn in H; discriminate|].
+  apply st_okb_cons in Hs as [A Hs].
+  cbn [trun tstep bind fst snd prim_sem] in H.
+  apply bind_ok in H as (s1 & H1 & H). apply bind_ok in H1 as (stk1 & E & H1). inversion H1; subst; clear H1.
+  apply bind_ok in E as (v & Ev & E). apply ck_ok in E as [-> Kv]. cbn in H. inversion H; subst; clear H.
+  destruct (rsub_involutive c x v A Ev) as [Ev' _].
+  split; [apply R; auto | apply st_okb_cons; auto].
+Qed.
+
+
 
 (* ------------------------------------------------------------------ closure *)
 
@@ -455,6 +560,19 @@ Lemma split2_of (x y rest : list arr) :
   split_at (length x) (x ++ y ++ rest) = Ok (x, y ++ rest) /\ split_at (length y) (y ++ rest) = Ok (y, rest).
 Proof. split; apply split_at_app. Qed.
 
+Lemma law_dipn k f g : law f g -> law [TDipN k f] [TDipN k g].
+Proof.
+  intros L [stk u] s' Hs H. stp H. rewrite ?go_trun in H.
+  apply bind_ok in H as (p & Hp & H). apply bind_ok in H as (s1 & H1 & H). inversion H; subst; clear H.
+  apply split_at_ok in Hp as [E Lk]. destruct p as [top rest]. cbn [fst snd] in *. subst stk.
+  apply st_okb_app in Hs as [Kt Hs]. destruct (L _ _ Hs H1) as [G1 K1]. destruct s1 as [st1 u1]. cbn [fst snd] in *.
+  split.
+  - rewrite trun_one. cbn [tstep fst snd]. rewrite ?go_trun. rewrite <- Lk, split_at_app. cbn [bind fst snd].
+    change (s' <- trun g (st1, u1) ;; Ok (top ++ fst s', snd s') = Ok (top ++ rest, u)).
+    rewrite G1. reflexivity.
+  - apply st_okb_app; auto.
+Qed.
+
 Lemma law_both a o f g : law f g -> law [TBoth a o f] [TUnBoth o a g].
 Proof.
   intros L [stk u] s' Hs H. stp H. rewrite ?go_trun in H.
@@ -533,7 +651,7 @@ Qed.
     well-formed) to s', the emitted inverse maps s' back to s - on the stack AND on the context stack *)
 Theorem inv_left f g : Inv1 f g -> law f g.
 Proof.
-  induction 1; auto using law_nil, law_prim, law_lit, law_seq, law_dip, law_both, law_unboth,
+  induction 1; auto using law_nil, law_prim, law_lit, law_rsub, law_dipn, law_seq, law_dip, law_both, law_unboth,
     law_bracket, law_unbracket.
 Qed.
 
@@ -653,4 +771,19 @@ Proof.
   split; [vm_compute; reflexivity|]. split; [vm_compute; reflexivity|]. split.
   - exists ([Arr TNum [4%nat] [ENum 1; ENum (-2); ENum (-3); ENum (-4)]], []). split; vm_compute; reflexivity.
   - exists ([Arr TNum [2%nat] [ENum (-2); ENum (-4)]], []). split; vm_compute; reflexivity.
+Qed.
+
+(* ------------------------------------------------------------------ the extended catalogue, stated per template *)
+
+Theorem catalogue_ext_laws :
+  (forall c, c <> 0%Z -> law [TPush c; TP P_Mul] [TPush c; TP P_Div]) /\
+  (forall c, c <> 0%Z -> law [TPush c; TP P_Div] [TPush c; TP P_Mul]) /\
+  (forall c, law [TPush c; TP P_Flip; TP P_Sub] [TPush c; TP P_Flip; TP P_Sub]) /\
+  (forall k f g, Inv1 f g -> law [TDipN k f] [TDipN k g]).
+Proof.
+  split; [|split; [|split]].
+  - intros c Hc. apply law_lit. cbn. destruct (Z.eqb_spec c 0); [contradiction|reflexivity].
+  - intros c Hc. apply law_lit. cbn. destruct (Z.eqb_spec c 0); [contradiction|reflexivity].
+  - apply law_rsub.
+  - intros k f g H. apply law_dipn. apply inv_left; auto.
 Qed.
